@@ -54,12 +54,15 @@ def caller_arguments_untouched(ctx, rel, rule, allowed=None, min_functions=3):
     ctx.floor(f"{rule}:{rel}", n, min_functions)
 
 
-def _truth_tested_names(fn):
-    """names used as a truth value: `if x`, `while x`, `x and ..`, `not x`, `.. if x else ..`"""
+def _truth_tested_names(fn, before=None):
+    """names used as a truth value: `if x`, `while x`, `x and ..`, `not x`, `.. if x else ..`.  `before`: {name: line} - only tests
+    in front of that line count (the first binding of the name by the function itself)"""
     out = {}
 
     def mark(e):
         if isinstance(e, ast.Name):
+            if before is not None and e.id in before and e.lineno > before[e.id]:
+                return
             out.setdefault(e.id, e)
         elif isinstance(e, ast.BoolOp):
             for v in e.values:
@@ -115,11 +118,44 @@ def _truth_tested_names(fn):
 
 
 def optional_numbers_tested_for_none(ctx, rel, rule, min_params=1, only=None):
-    """A parameter whose default is None and which the function uses as a number (ordered comparison / arithmetic) has two
-    different 'absent' candidates: None and 0.  The documented one is None; a truth test (`if timeout and ..`) treats the
-    legal value 0 as absent as well."""
+    """A parameter whose default is None and which the function uses as a number (ordered comparison / arithmetic), as an index or
+    as a key (`xs[p]`, `p in table`) has two different 'absent' candidates: None and the falsy legal value (0, the empty
+    name).  The documented one is None; a truth test (`if timeout and ..`, `if not record_name:`) treats the legal falsy value
+    as absent as well.  Truth tests that come after the function has bound the name itself are about the new value."""
     s = ctx.src(rel)
     n = 0
+    # optional by inheritance: a function that hands its optional parameter on, unchanged, makes the callee's parameter optional
+    # (`set_structure(.., record_name=None)` -> `_get_or_create_record(file, record_name)`); two rounds for chains of helpers
+    inherited = {}
+    by_name = {}
+    for q_, f_ in s.funcs.items():
+        by_name.setdefault(q_.split(".")[-1], []).append(q_)
+
+    def own_optional(f_):
+        a_ = f_.args
+        pos_ = a_.posonlyargs + a_.args
+        d_ = dict(zip([x.arg for x in pos_[len(pos_) - len(a_.defaults):]], a_.defaults))
+        d_.update({x.arg: v for x, v in zip(a_.kwonlyargs, a_.kw_defaults) if v is not None})
+        return {p_ for p_, v in d_.items() if isinstance(v, ast.Constant) and v.value is None}
+    for _ in range(2):
+        for q_, f_ in s.funcs.items():
+            opt_ = own_optional(f_) | inherited.get(q_, set())
+            stored_ = {x.id for x in ast.walk(f_) if isinstance(x, ast.Name) and isinstance(x.ctx, ast.Store)}
+            for c in ast.walk(f_):
+                if not isinstance(c, ast.Call):
+                    continue
+                cn = (call_name(c) or "").split(".")[-1]
+                for callee in by_name.get(cn, []):
+                    g = s.funcs[callee]
+                    ps = [x.arg for x in g.args.posonlyargs + g.args.args]
+                    if ps and ps[0] in ("self", "cls") and isinstance(c.func, ast.Attribute):
+                        ps = ps[1:]
+                    for k, a_ in enumerate(c.args):
+                        if isinstance(a_, ast.Name) and a_.id in opt_ and a_.id not in stored_ and k < len(ps):
+                            inherited.setdefault(callee, set()).add(ps[k])
+                    for kw in c.keywords:
+                        if isinstance(kw.value, ast.Name) and kw.value.id in opt_ and kw.value.id not in stored_ and kw.arg:
+                            inherited.setdefault(callee, set()).add(kw.arg)
     for qual, f in s.funcs.items():
         if only is not None and qual not in only:
             continue
@@ -127,21 +163,37 @@ def optional_numbers_tested_for_none(ctx, rel, rule, min_params=1, only=None):
         pos = a.posonlyargs + a.args
         defaults = dict(zip([x.arg for x in pos[len(pos) - len(a.defaults):]], a.defaults))
         defaults.update({x.arg: d for x, d in zip(a.kwonlyargs, a.kw_defaults) if d is not None})
-        optional = {p for p, d in defaults.items() if isinstance(d, ast.Constant) and d.value is None}
+        optional = {p for p, d in defaults.items() if isinstance(d, ast.Constant) and d.value is None} | inherited.get(qual, set())
+        # private helpers are handed the optional value of their public caller without a default of their own: a parameter that
+        # is compared with None somewhere in the function is optional as well
+        for x in ast.walk(f):
+            if isinstance(x, ast.Compare) and len(x.ops) == 1 and isinstance(x.ops[0], (ast.Is, ast.IsNot)) and isinstance(x.left, ast.Name) \
+                    and isinstance(x.comparators[0], ast.Constant) and x.comparators[0].value is None \
+                    and x.left.id in {y.arg for y in pos + a.kwonlyargs}:
+                optional.add(x.left.id)
         if not optional:
             continue
-        numeric = set()
+        valued = set()
         for x in ast.walk(f):
             if isinstance(x, ast.Compare) and any(isinstance(o, (ast.Lt, ast.LtE, ast.Gt, ast.GtE)) for o in x.ops):
-                numeric |= {y.id for y in [x.left] + x.comparators if isinstance(y, ast.Name)}
+                valued |= {y.id for y in [x.left] + x.comparators if isinstance(y, ast.Name)}
             elif isinstance(x, ast.BinOp) and isinstance(x.op, (ast.Add, ast.Sub, ast.Mult, ast.Div, ast.FloorDiv, ast.Mod)):
-                numeric |= {y.id for y in (x.left, x.right) if isinstance(y, ast.Name)}
-        rebound = {t.id for x in ast.walk(f) if isinstance(x, ast.Assign) for t in x.targets if isinstance(t, ast.Name)}
-        truth = _truth_tested_names(f)
-        for p in sorted((optional & numeric) - rebound):
+                valued |= {y.id for y in (x.left, x.right) if isinstance(y, ast.Name)}
+            elif isinstance(x, ast.Subscript):
+                # xs[p], xs[:, p]: an index / a key
+                valued |= {y.id for y in ([x.slice] if not isinstance(x.slice, ast.Tuple) else x.slice.elts) if isinstance(y, ast.Name)}
+            elif isinstance(x, ast.Compare) and len(x.ops) == 1 and isinstance(x.ops[0], (ast.In, ast.NotIn)) and isinstance(x.left, ast.Name):
+                valued.add(x.left.id)                       # p in table: a key
+        first_store = {}
+        for x in ast.walk(f):
+            if isinstance(x, ast.Name) and isinstance(x.ctx, ast.Store) and x.id in optional:
+                first_store[x.id] = min(first_store.get(x.id, 10 ** 9), x.lineno)
+        truth = _truth_tested_names(f, before=first_store)
+        for p in sorted(optional & valued):
             n += 1
-            ctx.ob(rule, rel, qual, f"optional number `{p}` (default None)", p not in truth,
-                   f"`{p}` is tested by its truth value: the legal value 0 is treated like None (absent)", getattr(truth.get(p), "lineno", f.lineno))
+            ctx.ob(rule, rel, qual, f"optional value `{p}` (None = absent)", p not in truth,
+                   f"`{p}` is tested by its truth value: the legal falsy value (0, an empty name) is treated like None (absent)",
+                   getattr(truth.get(p), "lineno", f.lineno))
     ctx.floor(f"{rule}:{rel}", n, min_params)
     return n
 
@@ -468,14 +520,30 @@ def validation_before_mutation(ctx, rel, rule, raising, method_names=("set_struc
             return [c for c in ast.walk(node) if isinstance(c, ast.Call) and (call_name(c) or "").split(".")[-1] in raising]
         first = next((k for k, st in enumerate(stmts_) if mutates(st)), None)
         calls_ = [c for st in stmts_ for c in may_refuse(st)]
-        if first is None or not calls_:
+        # the method's own refusals: `raise` statements outside exception handlers (a handler that re-raises is translating an error)
+        def own_raises(node):
+            out = []
+            todo = [node]
+            while todo:
+                x = todo.pop()
+                if isinstance(x, ast.Raise):
+                    out.append(x)
+                if isinstance(x, (ast.FunctionDef, ast.AsyncFunctionDef, ast.Lambda)) and x is not node:
+                    continue
+                for ch in ast.iter_child_nodes(x):
+                    if not isinstance(ch, ast.ExceptHandler):
+                        todo.append(ch)
+            return out
+        raises_ = [r for st in stmts_ for r in own_raises(st)]
+        if first is None or not (calls_ or raises_):
             continue
         n += 1
         # calls in statements after the first mutation; an augmented assignment evaluates its own right side before it changes the target
         late = [c for st in stmts_[first + 1:] for c in may_refuse(st)]
+        late += [r for st in stmts_[first + 1:] for r in own_raises(st)]
         if mutates(stmts_[first]) is True:
             late += [c for c in may_refuse(stmts_[first]) if not isinstance(stmts_[first], ast.Assign)]
-        ctx.ob(rule, rel, q, f"{len(calls_)} refusing call(s), first in-place change at statement {first + 1}", not late,
+        ctx.ob(rule, rel, q, f"{len(calls_)} refusing call(s) and {len(raises_)} own refusal(s), first in-place change at statement {first + 1}", not late,
                (f"`{ast.unparse(late[0])[:60]}` can refuse its input, but the object was already changed in place at line "
                 f"{stmts_[first].lineno}: after the error the previous content is gone (a damaged file is written later)" if late else ""), f.lineno)
     ctx.floor(f"{rule}:{rel}", n, 0)
@@ -665,4 +733,39 @@ def iterators_consumed_once(ctx, rel, rule):
         ctx.ob(rule, rel, q, "one-shot iterators read once: " + (", ".join(lazy) or "none bound"), not hits,
                (f"`{first[0]}` is a one-shot iterator (bound at line {first[1].lineno}) and may be read a second time at line {first[2].lineno}: "
                 "the second reader finds it exhausted" if first else ""), f.lineno, nontrivial=bool(lazy))
+    return n
+
+
+def lookup_results_tested_for_none(ctx, rel, rule, min_sites=0):
+    """`v = table.get(key)` answers None for a missing key.  Whether the key was found is `v is None` - the truth of v is a
+    statement about the VALUE (index 0, an empty string, an empty list are found and falsy)"""
+    s = ctx.src(rel)
+    n = 0
+    for q, f in s.funcs.items():
+        if any(q != q2 and q.startswith(q2 + ".") for q2 in s.funcs):
+            continue
+        binds = {}
+        for st in ast.walk(f):
+            if isinstance(st, ast.Assign) and len(st.targets) == 1 and isinstance(st.targets[0], ast.Name):
+                binds.setdefault(st.targets[0].id, []).append(st.value)
+            elif isinstance(st, ast.Name) and isinstance(st.ctx, ast.Store):
+                binds.setdefault(st.id, [])
+
+        def plain_get(v):
+            return isinstance(v, ast.Call) and isinstance(v.func, ast.Attribute) and v.func.attr == "get" and not v.keywords \
+                and (len(v.args) == 1 or len(v.args) == 2 and isinstance(v.args[1], ast.Constant) and v.args[1].value is None)
+        stores = {}
+        for x in ast.walk(f):
+            if isinstance(x, ast.Name) and isinstance(x.ctx, ast.Store):
+                stores[x.id] = stores.get(x.id, 0) + 1
+        looked_up = {nm for nm, vs in binds.items() if vs and all(plain_get(v) for v in vs) and stores.get(nm) == len(vs)}
+        if not looked_up:
+            continue
+        truth = _truth_tested_names(f)
+        for nm in sorted(looked_up):
+            n += 1
+            ctx.ob(rule, rel, q, f"`{nm}` = <table>.get(key): found iff `{nm} is not None`", nm not in truth,
+                   f"`{nm}` is the result of a look-up and is tested by its truth value: a found value that is falsy (index 0, an empty "
+                   "string) is taken for 'not found'", getattr(truth.get(nm), "lineno", f.lineno))
+    ctx.floor(f"{rule}:{rel}", n, min_sites)
     return n
